@@ -251,7 +251,7 @@ pub fn run(ctx: &Ctx) -> i32 {
          the diagnostic's line with the marker under its columns. distinct_nontrivial = distinct file sets with >= 1 diagnostic",
     );
     rep.assume("the compact format does not print the end line; only what is printed is compared");
-    let per_shard = ctx.tier.pick(5, 150);
+    let per_shard = ctx.tier.pick(12, 150);
     let acc = run_sharded(ctx, |shard| {
         let mut acc = Acc::new();
         for k in 0..per_shard {
